@@ -141,11 +141,21 @@ def gen_c20(run_seed):
     world = {'configs': {}, 'caches': [], 'globals': {}}
     n_cfg = pick(rng, [1, 1, 2])
     specs = []
+    cross = maybe(rng, 0.25)    # the same syntax name under both types / names of the other type
     for ci in range(n_cfg):
         cid = 'c%d' % ci
         style = maybe(rng, 0.4)
         t = 'stylesheet' if style else 'markup'
+        r = rng.random()
+        if r < 0.08:
+            # the host passes an empty config (or none at all): everything comes from the other layers
+            spec = {'id': cid, 'holder': 'dict' if maybe(rng, 0.6) else 'none', 'global': 'g0'}
+            specs.append(spec)
+            world['configs'][cid] = spec
+            continue
         names = (STYLE if style else MARKUP) + [UNKNOWN[t]]
+        if cross:
+            names = names + ['anysyn', 'anysyn'] + (MARKUP[:3] if style else STYLE[:3])
         s = pick(rng, names)
         spec = {'id': cid, 'holder': 'dict' if maybe(rng, 0.8) else 'Config'}
         if style or maybe(rng, 0.4):
@@ -153,7 +163,7 @@ def gen_c20(run_seed):
         default_syntax = 'css' if style else 'html'
         if s != default_syntax or maybe(rng, 0.5):
             spec['syntax'] = s
-        spec.update(layer_part(rng, style, 'U', 0, p=pick(rng, [0.2, 0.5, 0.8])))
+        spec.update(layer_part(rng, style, 'U', 0, p=pick(rng, [0.0, 0.2, 0.5, 0.8])))
         if not style and maybe(rng, 0.2):
             spec['text'] = pick(rng, [['foo', 'bar'], 'txt'])
         spec['global'] = 'g0'
@@ -171,6 +181,10 @@ def gen_c20(run_seed):
         spec = cur[cid]
         style = spec.get('type') == 'stylesheet'
         r = rng.random()
+        if spec.get('holder') == 'none' and not (r < 0.6 or 0.6 <= r < 0.78):
+            continue
+        if spec.get('holder') == 'none' and r < 0.33:
+            r = 0.5   # nothing to resolve: call instead
         if r < 0.33:
             ops.append({'op': 'resolve', 'cfg': cid})
         elif r < 0.6:
@@ -205,8 +219,15 @@ def gen_c20(run_seed):
             else:
                 op['value'] = val
             ops.append(op)
+        elif cross and maybe(rng, 0.4):
+            # the host switches the abbreviation type of this config, keeping the syntax name
+            t2 = 'markup' if style else 'stylesheet'
+            spec['type'] = t2
+            ops.append({'op': 'edit_cfg', 'cfg': cid, 'path': ['type'], 'value': t2})
         else:
             names = (STYLE if style else MARKUP) + [UNKNOWN['stylesheet' if style else 'markup']]
+            if cross:
+                names = names + ['anysyn', 'anysyn'] + (MARKUP[:3] if style else STYLE[:3])
             s = pick(rng, names)
             spec['syntax'] = s
             ops.append({'op': 'edit_cfg', 'cfg': cid, 'path': ['syntax'], 'value': s})
